@@ -2,6 +2,8 @@ package harness
 
 import (
 	"fmt"
+	"os"
+	"runtime"
 	"sort"
 	"strconv"
 	"strings"
@@ -166,6 +168,40 @@ type callRec struct {
 	err      error
 }
 
+type pendingCall struct {
+	what  string
+	since int64
+}
+
+//go:norace
+func (e *Exec) callBegin(id int, what string) {
+	if e.md.inCall == nil {
+		e.md.inCall = map[int]*pendingCall{}
+	}
+	e.md.inCall[id] = &pendingCall{what: what, since: simrt.Steps()}
+}
+
+//go:norace
+func (e *Exec) callEnd(id int) { delete(e.md.inCall, id) }
+
+// oldestCall: the API call that has been pending for the longest time.
+//
+//go:norace
+func (e *Exec) oldestCall() (int, *pendingCall) {
+	best, bid := (*pendingCall)(nil), -1
+	ids := make([]int, 0, len(e.md.inCall))
+	for id := range e.md.inCall {
+		ids = append(ids, id)
+	}
+	sort.Ints(ids)
+	for _, id := range ids {
+		if c := e.md.inCall[id]; best == nil || c.since < best.since {
+			best, bid = c, id
+		}
+	}
+	return bid, best
+}
+
 type snapRec struct {
 	inv, ret int64
 	o        []int // observed batch index per writer (-1 = unknown)
@@ -185,6 +221,7 @@ type multiState struct {
 	overlap            int
 	kids               bool
 	segsPerBatch       int
+	inCall             map[int]*pendingCall // per driver: the moss API call it is inside of
 }
 
 func (e *Exec) isWriter(prog []Op) bool {
@@ -275,12 +312,25 @@ func (e *Exec) livenessMonitor() {
 	start := simrt.Steps()
 	errs0 := len(e.events.errors)
 	idleRounds := 0
-	for md.pending > 0 && simrt.Steps()-start < bound {
+	var stuck *pendingCall
+	stuckID := -1
+	for md.pending > 0 {
 		before := simrt.Steps()
 		simrt.Quiesce(2000, 2)
 		if e.viol != nil {
 			simrt.Fair(false)
 			return
+		}
+		// a moss API call (not the driver's own read loops) pending for too long?
+		if id, c := e.oldestCall(); c != nil {
+			since := c.since
+			if since < start {
+				since = start
+			}
+			if simrt.Steps()-since > bound {
+				stuck, stuckID = c, id
+				break
+			}
 		}
 		if simrt.Steps() == before {
 			// only timers fire (an idle waker sleeping again and again) while
@@ -301,16 +351,21 @@ func (e *Exec) livenessMonitor() {
 		}
 	}
 	simrt.Fair(false)
-	if md.pending > 0 && len(e.events.errors) > errs0 {
+	if stuck != nil && len(e.events.errors) > errs0 {
 		// persistence rounds (or merger cycles) kept failing during the suffix,
 		// e.g. because the application's merge operator refuses: the premise
 		// "the lower level makes progress" does not hold, no verdict
 		e.probe("liveness-premise-failed")
 		return
 	}
-	if md.pending > 0 && e.viol == nil {
-		e.viol = &Violation{Prop: "C16", Class: "liveness", OpIdx: e.opIdx, Detail: e.detail(map[string]string{"symptom": "liveness"}),
-			Msg: fmt.Sprintf("%d driver call(s) still pending %d fair scheduling points after faults stopped:\n%s", md.pending, simrt.Steps()-start, simrt.DumpTasks())}
+	if stuck != nil && e.viol == nil {
+		if os.Getenv("VERIF_DEBUG") != "" {
+			buf := make([]byte, 1<<20)
+			n := runtime.Stack(buf, true)
+			fmt.Fprintf(os.Stderr, "%s\n", buf[:n])
+		}
+		e.viol = &Violation{Prop: "C16", Class: "liveness", OpIdx: e.opIdx, Detail: e.detail(map[string]string{"symptom": "liveness", "call": stuck.what}),
+			Msg: fmt.Sprintf("%s of driver %d has not returned %d fair scheduling points after faults stopped:\n%s", stuck.what, stuckID, simrt.Steps()-stuck.since, simrt.DumpTasks())}
 		panic(abortRun{})
 	}
 	e.probe("liveness-suffix-used")
@@ -343,7 +398,9 @@ func (e *Exec) driver(id int, prog []Op) {
 			e.fillBatch(b, op.B, true)
 			rec := callRec{inv: simrt.Steps(), idx: idx}
 			md.wcalls[w] = append(md.wcalls[w], rec)
+			e.callBegin(id, "ExecuteBatch")
 			err = e.coll.ExecuteBatch(b, moss.WriteOptions{})
+			e.callEnd(id)
 			rc := &md.wcalls[w][idx-1]
 			rc.ret = simrt.Steps()
 			rc.err = err
@@ -371,7 +428,9 @@ func (e *Exec) driver(id int, prog []Op) {
 				return
 			}
 			e.fillBatch(b, op.B, true)
+			e.callBegin(id, "ExecuteBatch")
 			err = e.coll.ExecuteBatch(b, moss.WriteOptions{})
+			e.callEnd(id)
 			b.Close()
 			if err != nil {
 				return
@@ -385,9 +444,11 @@ func (e *Exec) driver(id int, prog []Op) {
 			if md.closeInv > 0 {
 				continue
 			}
+			e.callBegin(id, "NotifyMerger")
 			e.coll.(interface {
 				NotifyMerger(string, bool) error
 			}).NotifyMerger(op.S, op.Flag)
+			e.callEnd(id)
 		case "pause":
 			simrt.Quiesce(int64(op.N), 0)
 		case "readSnap":
@@ -411,7 +472,9 @@ func (e *Exec) driver(id int, prog []Op) {
 			}
 		case "closeColl":
 			md.closeInv = simrt.Steps()
+			e.callBegin(id, "Close")
 			e.coll.Close()
+			e.callEnd(id)
 			md.closeRet = simrt.Steps()
 			md.closed = true
 			e.collOpen = false
@@ -464,7 +527,9 @@ func (e *Exec) readSnap(reader int) {
 		return
 	}
 	rec := snapRec{inv: simrt.Steps(), kind: "snapshot", reader: reader}
+	e.callBegin(reader, "Snapshot")
 	ss, err := e.coll.Snapshot()
+	e.callEnd(reader)
 	rec.ret = simrt.Steps()
 	if err != nil {
 		if err == moss.ErrClosed && md.closeInv > 0 {
@@ -496,12 +561,12 @@ func (e *Exec) readSnap(reader int) {
 			e.failD("atomicity", map[string]string{"symptom": "torn-batch", "diff": d},
 				"snapshot shows writer %d at batch %d (marker) but its other keys are not the state after exactly %d batches: %s", w, o, o, d)
 		}
-		// point reads agree
-		if m := equalContent(ss, content, nil, ""); m != nil {
-			ss.Close()
-			e.failD("atomicity", map[string]string{"symptom": "get-iter-disagree"}, "snapshot point reads disagree with its own iteration: %s", m)
-		}
 		rec.o = append(rec.o, o)
+	}
+	// point reads agree with the snapshot's own iteration
+	if m := equalContent(ss, content, nil, ""); m != nil {
+		ss.Close()
+		e.failD("atomicity", map[string]string{"symptom": "get-iter-disagree"}, "snapshot point reads disagree with its own iteration: %s", m)
 	}
 	ss.Close()
 	md.snaps = append(md.snaps, rec)
@@ -518,7 +583,9 @@ func (e *Exec) getMarkers(reader int) {
 		for i := range rec.o {
 			rec.o[i] = -1
 		}
+		e.callBegin(reader, "Get")
 		v, err := e.coll.Get([]byte(writerPrefix(w)+"seq"), moss.ReadOptions{})
+		e.callEnd(reader)
 		rec.ret = simrt.Steps()
 		if err != nil {
 			if err == moss.ErrClosed && md.closeInv > 0 {
